@@ -58,6 +58,9 @@ type Program struct {
 	callersHO     map[*ssa.Function][]ssa.CallInstruction // calls through function-typed parameters (depends on pins)
 	dynCalls      []ssa.CallInstruction                   // calls of function values not resolved in the first phase
 	noParamCallee bool
+	opaqueCalls   bool
+	pinDepth      int
+	inlineBusy    map[*ssa.Function]bool
 }
 
 // Pinned runs f with fn considered to be called from call only (one calling context of a shared helper).
